@@ -329,8 +329,12 @@ def check_conflict_arms(fx, mm, rep):
         built = [n for n, _ in F.walk(root) if n.get("k") == "Struct" and n.get("adt") == TE and n.get("variant") == "Conflict"]
         ok = len(targets) >= 2 and built and len(ext) >= 3
         # both operands are gathered
+        # both operands are gathered: the gathering code is applied to each of the two parameters - a local closure called twice,
+        # or a loop over an array literal of both
         gathers = [c for c, _ in F.calls(root) if c.get("k") == "Call" and c["f"].get("k") == "Path" and c["f"].get("res") == "local"]
-        ok = ok and len(gathers) >= 2
+        params = {p_.get("local") for p_ in cw["hir"]["params"] if p_.get("p") == "Bind"}
+        over_both = any(x.get("k") == "Array" and len(x.get("elems", [])) == 2 and len({F.local_of(F.strip(e_)) for e_ in x["elems"]} & params) == 2 for x, _ in F.walk(root))
+        ok = ok and (len(gathers) >= 2 or over_both)
         rep.oblige(bool(ok), "R15.4", "conflict_with-accumulates", F.loc(cw["span"]), "conflict_with does not gather the conflicts and reasons of both operands into the result")
 
 
